@@ -19,7 +19,9 @@ JudgeDep(rec) ==
           <<rec.res_control.ok = rec.res.ok /\ (rec.res.ok => rec.res_control.ast = rec.res.ast),
             "UnmarshalControl disagrees with Parse">>,
           <<rec.dirty_control.ok = rec.res.ok /\ (rec.res.ok => rec.dirty_control.ast = rec.res.ast),
-            "UnmarshalControl into a value that already held relations does not give the field's own relations">> >>)
+            "UnmarshalControl into a value that already held relations does not give the field's own relations">>,
+          <<rec.res.ok => (rec.kept_after.ok /\ rec.kept_after.ast = rec.res.ast),
+            "a value decoded earlier and kept changed when its receiver decoded another field">> >>)
 
 \* ---- C05: render / re-parse fixpoint ------------------------------------------
 JudgeDepRT(rec) ==
@@ -30,6 +32,8 @@ JudgeDepRT(rec) ==
           <<rec.rt.same_control, "MarshalControl differs from String()">>,
           <<rec.rt.back.ok, "rendered form is not accepted by the parser">>,
           <<rec.rt.back.ok => rec.rt.back.ast = rec.res.ast, "rendered form parses to a different value">>,
+          <<rec.kept_after.ok /\ rec.kept_after.ast = rec.res.ast,
+            "a value decoded earlier and kept no longer renders / parses to the same value after its receiver decoded another field">>,
           <<pr.class # "reject", "rendered form is a malformed relationship field">>,
           <<pr.class = "accept" => pr.ast = rec.res.ast, "rendered form denotes a different value (reference parser)">> >>)
 
